@@ -105,13 +105,10 @@ namespace occa {
   }
 
   std::string hash_t::getString() const {
-    if (*this != hash_t(sh)) {
-      h_string = getFullString();
-      h_string = (h_string.size() < 16) ? h_string : h_string.substr(0, 16);
-      for (int i = 0; i < 8; ++i) {
-        sh[i] = h[i];
-      }
-    }
+    // Always derived from the current value: the words of the hash can be
+    // written directly, and a memo keyed on their value is wrong for the zero hash
+    h_string = getFullString();
+    h_string = (h_string.size() < 16) ? h_string : h_string.substr(0, 16);
     return h_string;
   }
 
